@@ -3,6 +3,7 @@ Bridge: the definitions the translator generates from /repo's source (`Generated
 are the hand-written model functions every property theorem is stated about.
 -/
 import SqModel.Generated.Trans
+import SqModel.Proofs.BridgeBits
 import SqModel.Model.Bds
 import SqModel.Proofs.Ehs
 
@@ -191,5 +192,10 @@ theorem is_bds_5_0_eq (m : Msg) (L : Long m) : (T.is_bds_5_0 m).map bds50OfT = i
   cases g1 <;> cases g2 <;> cases g3 <;> cases g4 <;> cases g5 <;> simp [bds50OfT]
   cases r <;> cases t <;> cases q <;> cases g <;> cases a <;> simp
   split <;> simp_all [bds50OfT]
+
+/-! ### `ais` (the frame layer `get_icao`, `get_message` is bridged in `BridgeBits.lean`) -/
+
+theorem ais_eq (m : Msg) : T.ais m = ais m := by
+  simp only [T.ais, ais, aisCodes, List.map_cons, List.map_nil, ia5_eq]
 
 end Sq.Bridge
